@@ -5,6 +5,7 @@ from vpx import conformance as cf
 from vpx import e2 as E2
 from vpx.models import rsh, rninja
 from vpx.props import common
+from vpx.run import Ob
 
 ID = 'C02'
 LEVEL_TEXT = 'bounded symbolic execution (CrossHair/z3) of the real Ninja writer and sh quoting code for every string up to the stated length over all of Unicode, in 12 argument positions, decoded by a reference Ninja evaluator and an sh model'
@@ -16,10 +17,11 @@ FUNCTIONS = [
     'bfg9000.shell.posix.inner_quote_info', 'posix.wrap_quotes', 'posix.quote_info',
     'posix.listify', 'posix.global_env', 'posix.local_env', 'posix.join_lines',
     'bfg9000.builtins.tests._build_commands', 'bfg9000.path.BasePath.realize',
+    'bfg9000.backends.ninja.writer.write (section order)', 'bfg9000.builtins.install._add_install_paths/ninja_install_rule',
 ]
 OUTSIDE = ['strings longer than the stated bound', 'NUL/CR/LF', 'string-form commands',
            'Windows (cmd.exe) flavour of the Ninja backend (see C20)',
-           'more than one symbolic argument per command line']
+           'more than one symbolic argument per command line (the two whole-manifest obligations have none / one)']
 ASSUMPTIONS = [
     'rninja (Ninja lexer/evaluator/scoping and $in/$out shell escaping) is a TRUSTED reference '
     'model written from the manual and lexer.in.cc: there is no ninja binary in the sandbox to '
@@ -52,7 +54,18 @@ def obligations(tier, kf):
         for p in ('a_rule_arg', 'b_command_word', 'c_build_variable', 'e_global_env',
                   'f_local_env'):
             nmax[p] = 4
-    return common.string_obligations(POSITIONS, nmax, kf, MUTANTS, MIN)
+    obs = common.string_obligations(POSITIONS, nmax, kf, MUTANTS, MIN)
+    # whole-manifest evaluation: Ninja expands file-level bindings when it *reads* them, so a
+    # variable must be written before the bindings that use it (harnesses shared with C06 / C15)
+    w = Ob('w_whole_file', {}, 900, module='vpx.harness.c06',
+           desc='complete build.ninja from the real writer: global include dir / option reach the compiler')
+    obs += [w, w.twin(), w.mutant('ninja_srcdir_after_flags')]
+    ni = Ob('n_install_ninja', {'N': 1, 'kind': 2, 'which': 'pfx', 'dirs_reversed': True,
+                                'kf_quote': True}, 900, module='vpx.harness.c15',
+            desc='install command with the install-directory mapping in reverse insertion order '
+                 '(symbolic prefix component; a quote in it is C15-F16)')
+    obs += [ni, ni.twin(), ni.mutant('install_paths_in_mapping_order')]
+    return obs
 
 
 def conformance(tier):
